@@ -715,6 +715,10 @@ func validateEphemeralSiafundElement(ms *MidState, sfi types.V2SiafundInput) err
 		return fmt.Errorf("spends nonexistent ephemeral output %v", sfi.Parent.ID)
 	} else if ms.base.childHeight() >= ms.base.Network.HardforkV2.EphemeralOutputHeight {
 		return fmt.Errorf("spends ephemeral output %v", sfi.Parent.ID)
+	} else if sfi.Parent.ClaimStart.Cmp(ms.siafundTaxRevenue) > 0 {
+		// the claim start of an ephemeral parent is otherwise unchecked at
+		// these heights; applying such an input would underflow
+		return fmt.Errorf("claims start (%v) beyond the current siafund tax revenue for ephemeral output %v", sfi.Parent.ClaimStart, sfi.Parent.ID)
 	}
 	return nil
 }
